@@ -206,3 +206,91 @@ Theorem C11_rank_plus_draw_one_inst :
      + @predict_draw R (RNum GaussInst.PhiK GaussInst.PhiinvK) beta teams = 1)%R.
 Proof. exact (C11_rank_plus_draw_one GaussInst.PhiK GaussInst.PhiinvK GaussInst.GaussCDF_inst). Qed.
 Print Assumptions C11_rank_plus_draw_one_inst.
+
+(** ** Range of [predict_rank_probs] on the doubles the code computes (binary64, no rounding slack)
+
+    On Flocq's binary64 with the IEEE 754 round-to-nearest-even operations ([FloatInst.B64Num]):
+    every element of [predict_rank_probs beta teams] (the probabilities [predict_rank] returns) is a
+    FINITE double whose real value is in [0,1].  Premises: libm's erfc returns, on every finite
+    argument, a finite double with value in [0,2]; 2 <= number of teams <= 2^20; every argument
+    handed to the normal CDF (the quotients (mu_a - mu_b - draw_margin) / pair_scale that the code
+    computes, one per ordered pair of distinct positions) is finite (no overflow, no NaN).
+    Nothing is assumed about exp, [x ** 2], inv_cdf or the accuracy of sqrt.  All other finiteness
+    is derived; the argument is that of [C09_predict_win_range_binary64] (with two teams the sum has
+    one term, the compensation of CPython's [sum()] is then exactly 0 and n(n-1)/2 = 1). *)
+From Coq Require Import ZArith.
+From Flocq Require IEEE754.BinarySingleNaN IEEE754.Binary IEEE754.Bits.
+From OSV Require FloatInst.
+From OSV.Lemmas Require FloatRangeL.
+
+Theorem C11_rank_probs_range_binary64 :
+  forall (f_exp f_erfc f_pow2 f_icdf : Bits.binary64 -> Bits.binary64),
+  (forall x : Bits.binary64, Binary.is_finite 53%Z 1024%Z x = true ->
+     Binary.is_finite 53%Z 1024%Z (f_erfc x) = true
+     /\ (0 <= Binary.B2R 53%Z 1024%Z (f_erfc x) <= 2)%R) ->
+  forall (beta : Bits.binary64) (teams : list (list (rating Bits.binary64))),
+  2 <= length teams -> (Z.of_nat (length teams) <= 2 ^ 20)%Z ->
+  (forall (ro : list (rating Bits.binary64) * list (list (rating Bits.binary64))) (tb : list (rating Bits.binary64)),
+     In ro (rows teams) -> In tb (snd ro) ->
+     Binary.is_finite 53%Z 1024%Z
+       (@fdiv Bits.binary64 (FloatInst.B64Num f_exp f_erfc f_pow2 f_icdf)
+          (@fsub Bits.binary64 (FloatInst.B64Num f_exp f_erfc f_pow2 f_icdf)
+             (@fsub Bits.binary64 (FloatInst.B64Num f_exp f_erfc f_pow2 f_icdf)
+                (fst (@agg Bits.binary64 (FloatInst.B64Num f_exp f_erfc f_pow2 f_icdf) (fst ro)))
+                (fst (@agg Bits.binary64 (FloatInst.B64Num f_exp f_erfc f_pow2 f_icdf) tb)))
+             (@draw_margin Bits.binary64 (FloatInst.B64Num f_exp f_erfc f_pow2 f_icdf) beta teams))
+          (@pair_scale Bits.binary64 (FloatInst.B64Num f_exp f_erfc f_pow2 f_icdf) beta (length teams)
+             (@agg Bits.binary64 (FloatInst.B64Num f_exp f_erfc f_pow2 f_icdf) (fst ro))
+             (@agg Bits.binary64 (FloatInst.B64Num f_exp f_erfc f_pow2 f_icdf) tb))) = true) ->
+  Forall (fun p : Bits.binary64 =>
+            Binary.is_finite 53%Z 1024%Z p = true /\ (0 <= Binary.B2R 53%Z 1024%Z p <= 1)%R)
+    (@predict_rank_probs Bits.binary64 (FloatInst.B64Num f_exp f_erfc f_pow2 f_icdf) beta teams).
+Proof. exact FloatRangeL.rank_probs_range_b64. Qed.
+Print Assumptions C11_rank_probs_range_binary64.
+
+(** non-vacuity.  Stand-ins for the libm parameters: erfc := the step function 2 / 1 / 0 on
+    negative / zero / positive arguments (finite, in [0,2], as the premise requires),
+    [x ** 2 := x * x], inv_cdf := identity (so the draw margin is sqrt(4) * beta * 0.625); exp is
+    not used.  beta = 25/6; teams [(25.0, 25/3)], [(30.5, 7.25)], [(20.0, 5.0); (22.0, 4.0)]
+    (aggregate means 25, 30.5, 42).  The computed probabilities are [0.0; 1/3; 2/3] rounded;
+    with the first two teams only they are [0.0; 1.0]. *)
+Example C11_rank_probs_range_binary64_ex :
+  let N := FloatInst.B64Num (fun x => x)
+             (fun x => match Bits.b64_compare x (Binary.B754_zero 53%Z 1024%Z false) with
+                       | Some Lt => FloatInst.b64_of_Z 2 | Some Gt => FloatInst.b64_of_Z 0
+                       | _ => FloatInst.b64_of_Z 1 end)
+             (fun x => Bits.b64_mult BinarySingleNaN.mode_NE x x) (fun x => x) in
+  let t1 := [mkRating (Bits.b64_of_bits 4627730092099895296%Z) (Bits.b64_of_bits 4620880867666602667%Z) 0%Z NmNone] in
+  let t2 := [mkRating (Bits.b64_of_bits 4629278204471803904%Z) (Bits.b64_of_bits 4619848792751996928%Z) 1%Z NmNone] in
+  let t3 := [mkRating (FloatInst.b64_of_Z 20) (FloatInst.b64_of_Z 5) 2%Z NmNone;
+             mkRating (FloatInst.b64_of_Z 22) (FloatInst.b64_of_Z 4) 3%Z NmNone] in
+  let beta := Bits.b64_of_bits 4616377268039232171%Z in
+  Forall (fun p : Bits.binary64 =>
+            Binary.is_finite 53%Z 1024%Z p = true /\ (0 <= Binary.B2R 53%Z 1024%Z p <= 1)%R)
+    (@predict_rank_probs Bits.binary64 N beta [t1; t2; t3])
+  /\ Forall (fun p : Bits.binary64 =>
+            Binary.is_finite 53%Z 1024%Z p = true /\ (0 <= Binary.B2R 53%Z 1024%Z p <= 1)%R)
+    (@predict_rank_probs Bits.binary64 N beta [t1; t2])
+  /\ map Bits.bits_of_b64 (@predict_rank_probs Bits.binary64 N beta [t1; t2; t3])
+     = [0%Z; 4599676419421066581%Z; 4604180019048437077%Z]
+  /\ map Bits.bits_of_b64 (@predict_rank_probs Bits.binary64 N beta [t1; t2])
+     = [0%Z; 4607182418800017408%Z].
+Proof.
+  intros N t1 t2 t3 beta. split; [|split; [|split]].
+  - apply C11_rank_probs_range_binary64.
+    + exact FloatRangeL.ex_erfc_ok.
+    + repeat constructor.
+    + vm_compute. intros H; discriminate H.
+    + intros ro tb Hro Htb. cbv [rows rows_aux rev app In] in Hro.
+      destruct Hro as [<-|[<-|[<-|[]]]]; cbv [snd In] in Htb; destruct Htb as [<-|[<-|[]]];
+        vm_compute; reflexivity.
+  - apply C11_rank_probs_range_binary64.
+    + exact FloatRangeL.ex_erfc_ok.
+    + repeat constructor.
+    + vm_compute. intros H; discriminate H.
+    + intros ro tb Hro Htb. cbv [rows rows_aux rev app In] in Hro.
+      destruct Hro as [<-|[<-|[]]]; cbv [snd In] in Htb; destruct Htb as [<-|[]];
+        vm_compute; reflexivity.
+  - vm_compute. reflexivity.
+  - vm_compute. reflexivity.
+Qed.
